@@ -114,18 +114,22 @@ def check_sensitization(acc, desc, n, eps_arg):
     except Exception as e:  # noqa: BLE001
         acc.violation("sensitization", f"raises:{common.exc_name(e)}", case, repr(e))
         return None
-    ins = sorted(m.inputs())
-    cone_in = sorted(i for i in c.inputs() if i in cone_of(c, set(eps) | {n})) if eps_arg else sorted(c.inputs())
-    if set(ins) != set(cone_in):
-        acc.violation("sensitization", "wrong-inputs", case, f"{ins} vs {cone_in}")
+    cone_in = sorted(i for i in c.inputs() if i in cone_of(c, set(eps) | {n}))
+    if not set(cone_in) <= set(m.inputs()) or not set(m.inputs()) <= set(c.inputs()):
+        acc.violation("sensitization", "wrong-inputs", case, f"{sorted(m.inputs())}: must contain {cone_in} and only inputs of the circuit")
         return None
+    ins = sorted(c.inputs())
     if set(m.outputs()) != {"sat"}:
         acc.violation("sensitization", "wrong-outputs", case, sorted(m.outputs()))
         return None
     want, full = ref_sensitization(c, n, eps, ins)
     try:
-        tabs, _fr, _f = refsim.tables(m.graph, order=ins)
-    except refsim.RefError as e:
+        assign, _f = refsim.free_assign(ins)
+        val = refsim.evaluate(m.graph, {k: v for k, v in assign.items() if k in m.graph}, full)
+        tabs = {k: v[0] for k, v in val.items()}
+        if val["sat"][1]:
+            raise refsim.RefError("sat is X")
+    except (refsim.RefError, KeyError) as e:
         acc.violation("sensitization", "result-unevaluable", case, repr(e))
         return None
     acc.observe(hex(want))
@@ -165,12 +169,16 @@ def check_sens_transform(acc, desc, n):
     except Exception as e:  # noqa: BLE001
         acc.violation("sens_transform", f"raises:{common.exc_name(e)}", case, repr(e))
         return None
-    if set(s.inputs()) != set(sp):
-        acc.violation("sens_transform", "wrong-inputs", case, f"{sorted(s.inputs())} vs {sp}")
+    if not set(sp) <= set(s.inputs()) or not set(s.inputs()) <= set(c.inputs()):
+        acc.violation("sens_transform", "wrong-inputs", case, f"{sorted(s.inputs())}: must contain {sp} and only inputs of the circuit")
         return None
     try:
-        tabs, _fr, _f = refsim.tables(s.graph, order=sp)
-    except refsim.RefError as e:
+        assign, _f = refsim.free_assign(sp)
+        for extra in set(s.inputs()) - set(sp):
+            assign[extra] = (0, 0)
+        val = refsim.evaluate(s.graph, assign, full)
+        tabs = {k: v[0] for k, v in val.items()}
+    except (refsim.RefError, KeyError) as e:
         acc.violation("sens_transform", "result-unevaluable", case, repr(e))
         return None
     outs = set(s.outputs())
@@ -185,9 +193,6 @@ def check_sens_transform(acc, desc, n):
     bits = sorted((int(o[len("sen_out_"):]), o) for o in outs if o.startswith("sen_out_"))
     if [b for b, _ in bits] != list(range(len(bits))) or (1 << len(bits)) <= len(sp):
         acc.violation("sens_transform", "sen_out-bits-wrong", case, [o for _, o in bits])
-        return None
-    if outs != {f"dif_out_{x}" for x in sp} | {o for _, o in bits}:
-        acc.violation("sens_transform", "unexpected-outputs", case, sorted(outs))
         return None
     for j, cnt in enumerate(counts):
         got = sum(((tabs[o] >> j) & 1) << b for b, o in bits)
@@ -251,11 +256,16 @@ def check_props(acc, desc, n, do_sensitize=True):
                         if want:
                             acc.violation("props", "sensitize-none-but-sensitisable", case, "")
                     else:
-                        if set(r) != set(ins):
+                        if not set(r) <= set(ins):
                             acc.violation("props", "sensitize-wrong-keys", case, str(r))
                         else:
-                            j = sum((1 << i) for i, x in enumerate(ins) if r[x])
-                            if not (want >> j) & 1:
+                            # inputs the answer leaves out are don't-cares: every completion must sensitise
+                            agree = f2
+                            for i, x in enumerate(ins):
+                                if x in r:
+                                    mk = refsim.var_mask(i, len(ins))
+                                    agree &= mk if r[x] else ~mk & f2
+                            if agree & ~want & f2:
                                 acc.violation("props", "sensitize-not-sensitising", case, str(r))
                 except Exception as e:  # noqa: BLE001
                     acc.violation("props", f"sensitize-raises:{common.exc_name(e)}", case, repr(e))
